@@ -379,8 +379,8 @@ def generate_for(prop, rng, tier):
     if tier == "quick":
         cases += matrix_pairs(ops, base, 140, rng.randrange(140))
     else:
-        cases += matrix_pairs(ops, base, 4, rng.randrange(4))
-    n = 150 if tier == "quick" else 5000
+        cases += matrix_pairs(ops, base, 12, rng.randrange(12))
+    n = 150 if tier == "quick" else 2500
     for _ in range(n):
         c = rcase(rng, prop, 7 if tier == "quick" else 16)
         c["kind"] = "random"
